@@ -811,3 +811,23 @@ Definition hello_base_enc (m : msg) : option bytes :=
   | MCH v r s su c _ => enc f_ch_base (ch_base v r s su c)
   | _ => None
   end.
+
+(* ycase: systematic single-byte substitution.  For a base input s (a valid encoding), every position i
+   and every value of subst_vals (the byte there): the whole substituted input is decoded and folded
+   into the checksum like digest_dec; same order on the Go side *)
+Definition subst_vals (o : N) : list N := [0; 1; 2; 3; 127; 128; 255; (o + 1) mod 256; (o + 255) mod 256].
+Fixpoint subst_at (i : nat) (v : N) (s : bytes) : bytes :=
+  match s with
+  | [] => []
+  | x :: r => match i with
+              | O => v :: r
+              | S k => x :: subst_at k v r
+              end
+  end.
+Definition digest_subst (k : kind) (has : bool) (s : bytes) (h : N) : N :=
+  fold_left (fun h i =>
+               fold_left (fun h v => digest_dec k has (subst_at i v s) h) (subst_vals (nth i s 0)) h)
+            (seq 0 (length s)) h.
+Definition ycase := (kind * bool * bytes * N)%type.
+Definition check_ycase (c : ycase) : bool :=
+  let '(k, has, s, h) := c in digest_subst k has s 0 =? h.
